@@ -488,8 +488,9 @@ class JordanCurve:
         for ind in range(len(self.segments)):
             new_nodes = []
             for node in sorted(node for index, node in pairs if index == ind):
-                # Nodes closer than the tolerance give only one junction
-                if not new_nodes or node - new_nodes[-1] >= 1e-6:
+                # Nodes that the knot insertion cannot tell apart (1e-9)
+                # give only one junction
+                if not new_nodes or node - new_nodes[-1] > 1e-9:
                     new_nodes.append(node)
             if len(new_nodes) == 0:
                 continue
